@@ -126,6 +126,52 @@ func (g *Gen) verifyFunction(fn *ssa.Function, sp *FuncSpec) *FnCtx {
 			rnames = append(rnames, sig.Results().At(i).Name())
 		}
 	}
+	// `loop N nobreak`: no edge leaves the loop from inside its body except towards a return
+	for _, c := range sp.NoBreak {
+		var li *loopInfo
+		for _, l := range fr.loops {
+			if l.ord == c.Loop {
+				li = l
+			}
+		}
+		if li == nil {
+			fc.errs = append(fc.errs, fmt.Sprintf("%s: loop %d nobreak: no such loop", sp.Name, c.Loop))
+			continue
+		}
+		endsInReturn := func(b *ssa.BasicBlock) bool {
+			// a block (chain) that does nothing but return (possibly after running defers)
+			seen := 0
+			for b != nil && seen < 4 {
+				seen++
+				if len(b.Instrs) > 0 {
+					if _, ok := b.Instrs[len(b.Instrs)-1].(*ssa.Return); ok {
+						return true
+					}
+				}
+				if len(b.Succs) != 1 {
+					return false
+				}
+				b = b.Succs[0]
+			}
+			return false
+		}
+		for b := range li.blocks {
+			if b == li.head {
+				continue
+			}
+			for _, s2 := range b.Succs {
+				if li.blocks[s2] || endsInReturn(s2) {
+					continue
+				}
+				ec := fr.edge[[2]int{b.Index, s2.Index}]
+				if ec == "" {
+					continue
+				}
+				fc.addObligAt(&Oblig{Name: fmt.Sprintf("%s/nobreak#L%d@b%d", sp.Name, c.Loop, b.Index), Kind: "nobreak", Tags: c.Tags,
+					goal: sNot(ec), Text: c.Text + ": the loop is left only through its head or by a return", Spec: c}, s2, 0)
+			}
+		}
+	}
 	// returns taken from inside a loop (dominated by its head, not reachable from its normal exit): `loop N early E`
 	for _, c := range sp.Early {
 		var li *loopInfo
@@ -488,7 +534,7 @@ func (sp *FuncSpec) allTags() []string {
 	for _, t := range sp.Tags {
 		set[t] = true
 	}
-	for _, cs := range [][]*Clause{sp.Requires, sp.Ensures, sp.Invs, sp.Asserts, sp.Props, sp.Tols, sp.Only, sp.Steps, sp.Early} {
+	for _, cs := range [][]*Clause{sp.Requires, sp.Ensures, sp.Invs, sp.Asserts, sp.Props, sp.Tols, sp.Only, sp.Steps, sp.Early, sp.NoBreak} {
 		for _, c := range cs {
 			for _, t := range c.Tags {
 				set[t] = true
